@@ -7,7 +7,9 @@ import subprocess
 import threading
 
 ROOT = os.path.dirname(os.path.dirname(os.path.abspath(__file__)))
-TARGET = os.path.join(ROOT, ".target")
+# VERIF_SCRATCH_TARGET / VERIF_SCRATCH_REPO are used only by tools/seed_eval_scratch.sh, which evaluates a seeded change in a
+# scratch worktree without touching /repo; no registered command sets them.
+TARGET = os.environ.get("VERIF_SCRATCH_TARGET") or os.path.join(ROOT, ".target")
 PROBE_BIN = os.path.join(TARGET, "release", "cgt-probe")
 CLI_BIN = os.path.join(TARGET, "release", "cgt-tool")
 
